@@ -289,6 +289,8 @@ def run(ctx):
     structural.filter_mpt(ctx, FN)
     from rules import hist
     hist.run(ctx, res, 'C09')       # composition: histories through the public API against the reference model (rules/hist.py)
+    from rules import scale
+    scale.run(ctx, res, 'C09')      # the same on graphs whose collections have the sizes the tree names (rules/scale.py)
     hist.run_sequences(ctx, res, "C09", "links", 4 if ctx.thorough else 3)
     common.vacuity(res, "SEQUENCE", 5000)
     common.vacuity(res, "HISTORY", 9000)
